@@ -6,6 +6,16 @@ open JanetModel.Gen.Asm JanetModel.Gen.Bytecode
 /-- the shape every generated field has: 1..3 bytes, starting at byte 1..3, inside the 32-bit word -/
 def FieldOK (f : Field) : Prop := 1 ≤ f.nth ∧ 1 ≤ f.nbytes ∧ f.nth + f.nbytes ≤ 4
 
+instance (f : Field) : Decidable (FieldOK f) := by unfold FieldOK; exact inferInstance
+
+theorem fields_ok : ∀ (t : IType) (f : Field), f ∈ fieldsOf t → FieldOK f := by
+  intro t
+  cases t <;> decide
+
+theorem doarg_eq (f : Field) (arg : Int) (h1 : ¬ arg < fieldMin f) (h2 : ¬ arg > fieldMax f) :
+    doarg f arg = some (((arg % 4294967296).toNat * 2 ^ (8 * f.nth)) % 4294967296) := by
+  simp [doarg, h1, h2]
+
 theorem doarg_roundtrip' (f : Field) (hf : FieldOK f) (arg : Int) (h : Encodable f arg) :
     ∃ w, doarg f arg = some w ∧ fieldRead f w = arg := by
   obtain ⟨nth, nbytes, signed⟩ := f
@@ -15,7 +25,10 @@ theorem doarg_roundtrip' (f : Field) (hf : FieldOK f) (arg : Int) (h : Encodable
       (nth = 2 ∧ nbytes = 2) ∨ (nth = 3 ∧ nbytes = 1) := by omega
   rcases hc with ⟨rfl, rfl⟩ | ⟨rfl, rfl⟩ | ⟨rfl, rfl⟩ | ⟨rfl, rfl⟩ | ⟨rfl, rfl⟩ | ⟨rfl, rfl⟩ <;> cases signed <;>
     simp [Encodable] at h <;>
-    simp [doarg, fieldMin, fieldMax, fieldRead, doargMinSlack] <;>
-    omega
+    refine ⟨_, doarg_eq _ _ ?_ ?_, ?_⟩ <;>
+    simp [fieldMin, fieldMax, doargMinSlack, fieldRead] <;>
+    first
+      | omega
+      | (split <;> omega)
 
 end JanetModel.Asm
